@@ -10,6 +10,8 @@ Definition c08t_run (inp : list tok) : list tok :=
   | [TS _; TN ver; TN id] => map TN (touches ver id)
   | [TS "v5doc"] => map TS v5_doc_failures ++ [TS "end"]
   | [TS "sfdoc"] => map TS sflow_doc_failures ++ [TS "end"]
+  | [TS "v5unknown"] => map TS v5_doc_unknown ++ [TS "end"]
+  | [TS "sfunknown"] => map TS sflow_doc_unknown ++ [TS "end"]
   | [TS "v5layout"] => [TS (if v5_layout_ok then "ok" else "bad")]
   (* the probe datagrams the documentation theorems evaluate the model on, as bytes for the implementation *)
   | [TS "v5probe"] => [TB (encode_v5 probe_v5_hdr [probe_v5_rec])]
